@@ -150,7 +150,7 @@ def judge(ctx, items, res, driver, case, allow_refusal=False):
                 except rv32.Unsupported as e:
                     ctx.violation('%s:%s:unsupported:%s' % (PROP, it['name'], 'c' if c else 'u'), '%r expands to %s' % (it['text'], e), driver, case)
                     break
-                ex, epc, free = expected(it, regs, cur, size, w.labels)
+                ex, epc, free = expected(it, regs, cur, size, w.env)
                 bad = [(q, hex(m.x[q]), hex(ex[q])) for q in range(32) if q not in free and m.x[q] != ex[q]]
                 mem = [t for t in m.trace if t[0] in ('ld', 'st')]
                 if bad or m.pc != epc or mem:
